@@ -212,7 +212,7 @@ func init() {
 
 func runC01(rc *RunCtx, i int) {
 	r := rc.CaseRand(i)
-	o := world.BuildOpts{MoreMerge: i%3 == 0, HighFPR: i%2 == 0, ExtFiles: i%5 == 0, BigRegion: i%80 == 5}
+	o := world.BuildOpts{MoreMerge: i%3 == 0, HighFPR: i%2 == 0, ExtFiles: i%5 == 0, BigRegion: i%80 == 5, MetaIgnoresPrefilter: i%7 == 3}
 	c, err := buildDP(rc, i, o, false)
 	if err != nil {
 		rc.Violate(i, "scenario-failed", "", "fault-free scenario failed: "+err.Error(), nil)
@@ -353,7 +353,7 @@ func c01Signature(q *bs.Query, rec *world.RowRec) string {
 
 func runC02(rc *RunCtx, i int) {
 	r := rc.CaseRand(i)
-	o := world.BuildOpts{MoreMerge: i%3 == 1, HighFPR: true, ExtFiles: i%4 == 0}
+	o := world.BuildOpts{MoreMerge: i%3 == 1, HighFPR: true, ExtFiles: i%4 == 0, MetaIgnoresPrefilter: i%4 == 2}
 	c, err := buildDP(rc, i, o, false)
 	if err != nil {
 		rc.Violate(i, "scenario-failed", "", "fault-free scenario failed: "+err.Error(), nil)
